@@ -141,14 +141,17 @@ def angDiff (a b : Float) : Float :=
 
 def handleRt (args impl : List String) : String :=
   match fls args, fls impl with
-  | some [_lat0, _lon0, lat, lon, dist], some [x, y, _azi, _rk, lat', lon', x', y'] =>
+  | some [lat0, _lon0, lat, lon, dist], some [x, y, _azi, _rk, lat', lon', x', y'] =>
+    -- a latitude of exactly ±45° hits the octant slip of the geodesic library's own sincosdx
+    -- (recorded finding): such failures are labelled so that they are told apart from any other
+    let tag := if Float.abs lat0 == 45.0 ∨ Float.abs lat == 45.0 then " tag=geodesic-lat45" else ""
     if dist > 10100000.0 then
       (if x.isNaN ∧ y.isNaN then "OK nt=1" else "VIOL clause=ge.horizon_nan")
     else if dist < 9000000.0 then
       if x.isNaN ∨ y.isNaN then "VIOL clause=ge.forward_nan"
       else if !(Float.abs (lat' - lat) ≤ 1e-9 ∧ (angDiff lon' lon ≤ 1e-9 ∨ Float.abs lat > 89.9999)) then
-        s!"VIOL clause=ge.roundtrip_geo dlat={lat' - lat} dlon={angDiff lon' lon}"
-      else if !(near 1e-6 1e-6 x x' ∧ near 1e-6 1e-6 y y') then s!"VIOL clause=ge.roundtrip_plane"
+        s!"VIOL clause=ge.roundtrip_geo{tag} dlat={lat' - lat} dlon={angDiff lon' lon}"
+      else if !(near 1e-6 1e-6 x x' ∧ near 1e-6 1e-6 y y') then s!"VIOL clause=ge.roundtrip_plane{tag}"
       else "OK nt=1"
     else "SKIP reason=near_horizon"
   | _, _ => "BAD"
